@@ -167,7 +167,12 @@ func genericExpander(expandedNames ...pr.KnownProp) func(beforeGeneric) expander
 				value, ok := results[newName.String()]
 				if ok {
 					if !skipValidation {
-						np, err := validateNonShorthand(baseURL, actualNewName.String(), value.(pr.RawTokens), true)
+						// 'inherit' and 'initial' are only valid as the whole value of the shorthand
+						tokens := value.(pr.RawTokens)
+						if keyword := getSingleKeyword(tokens); keyword == "inherit" || keyword == "initial" {
+							return nil, fmt.Errorf("%s among several values", keyword)
+						}
+						np, err := validateNonShorthand(baseURL, actualNewName.String(), tokens, true)
 						if err != nil {
 							return nil, fmt.Errorf("validating %s: %s", actualNewName, err)
 						}
@@ -214,6 +219,15 @@ func expandFourSides(baseURL string, name pr.Shortand, tokens []Token) (out expa
 
 	if result, ok := findVar(name, tokens, expandedNames[:]); ok {
 		return result, nil
+	}
+
+	// 'inherit' and 'initial' are only valid as the whole value
+	if len(tokens) > 1 {
+		for _, token := range tokens {
+			if keyword := getKeyword(token); keyword == "inherit" || keyword == "initial" {
+				return nil, fmt.Errorf("%s among several values", keyword)
+			}
+		}
 	}
 
 	// Make sure we have 4 tokens
